@@ -1,5 +1,5 @@
 //! C12 harness: indexing, diagnosing and querying any set of files terminates without panicking.
-//!   c12 search --seed S --n N [--case-ms 4000] [--batch 25] [--stack-kib 2048] [--jobs 1] [--mem-mib 4096] [--corpus DIR]
+//!   c12 search --seed S --n N [--case-ms 4000] [--batch 25] [--stack-kib 2048] [--jobs 4] [--mem-mib 4096] [--corpus DIR]
 //!        parent: corpus cases first, then N generated cases, executed in child processes (`batch`); a panic, a fatal
 //!        signal (stack overflow / abort) or a hang of the in-flight case is a violation; failing cases are shrunk
 //!        (line based ddmin through `one`) and printed as JSON lines, then a `{"summary":..}` line.
@@ -7,6 +7,7 @@
 //!   c12 one --case-json J | --case-file P [--stack-kib K] one case in-process; exit 3 on panic
 //!   c12 parse-only --case-json J | --case-file P          only emmylua_parser on the same small stack
 //!   c12 gen --seed S --index i                            print generated case i
+//!   c12 shrink --case-file P [--runs 400] [--ms 600000]  longer shrink of one failing case (development aid)
 //!   c12 limits [--stack-kib K]                            bisect the nesting depth the parser / the analysis survive
 use emmylua_code_analysis::{
     DiagnosticCode, EmmyLuaAnalysis, Emmyrc, RenderLevel, file_path_to_uri, humanize_type, load_resource_from_include_dir,
@@ -49,10 +50,18 @@ struct Case {
     cfg: Value, // exactly the .emmyrc.json object that is deserialised
     family: String,
     opts: Opts,
+    minimal: bool, // corpus witness that is already shrunk: replayed and classified, not shrunk again
 }
 
 impl Case {
     fn to_json(&self) -> Value {
+        let mut v = self.to_json_base();
+        if self.minimal {
+            v["minimal"] = json!(true);
+        }
+        v
+    }
+    fn to_json_base(&self) -> Value {
         json!({
             "files": self.files.iter().map(|(n, t)| json!([n, t])).collect::<Vec<_>>(),
             "cfg": self.cfg,
@@ -74,6 +83,7 @@ impl Case {
             files,
             cfg: if v["cfg"].is_object() { v["cfg"].clone() } else { json!({}) },
             family: v["family"].as_str().unwrap_or("corpus").to_string(),
+            minimal: v["minimal"].as_bool().unwrap_or(false),
             opts: Opts {
                 std: o["std"].as_bool().unwrap_or(false),
                 batch: o["batch"].as_bool().unwrap_or(false),
@@ -187,6 +197,17 @@ fn exercise(case: &Case) -> Work {
     wk
 }
 
+/// CPU time (user + system, all threads) of a process in ms, from /proc/<pid>/stat; budgets are CPU budgets so that a
+/// loaded machine does not produce timeouts
+fn cpu_ms(pid: &str) -> Option<u64> {
+    let s = std::fs::read_to_string(format!("/proc/{pid}/stat")).ok()?;
+    let rest = &s[s.rfind(')')? + 1..];
+    let f: Vec<&str> = rest.split_whitespace().collect();
+    let ut: u64 = f.get(11)?.parse().ok()?;
+    let st: u64 = f.get(12)?.parse().ok()?;
+    Some((ut + st) * 10)
+}
+
 static LAST_LOC: Mutex<Option<String>> = Mutex::new(None);
 
 fn install_hook() {
@@ -233,10 +254,15 @@ fn on_small_stack<T: Send + 'static>(stack_kib: usize, f: impl FnOnce() -> T + S
 fn run_case_line(idx: usize, case: &Case, stack_kib: usize) -> (Value, bool) {
     let c = case.clone();
     let t0 = Instant::now();
+    let c0 = cpu_ms("self");
     let r = on_small_stack(stack_kib, move || exercise(&c));
-    let ms = t0.elapsed().as_millis() as u64;
+    let wall = t0.elapsed().as_millis() as u64;
+    let ms = match (c0, cpu_ms("self")) {
+        (Some(a), Some(b)) => b.saturating_sub(a),
+        _ => wall,
+    };
     match r {
-        Ok(wk) => (json!({"end": idx, "ms": ms, "panic": Value::Null, "loc": Value::Null, "tok": wk.tokens, "expr": wk.exprs, "diag": wk.diags, "info": wk.infos, "hum": wk.humanized}), false),
+        Ok(wk) => (json!({"end": idx, "ms": ms, "wall_ms": wall, "panic": Value::Null, "loc": Value::Null, "tok": wk.tokens, "expr": wk.exprs, "diag": wk.diags, "info": wk.infos, "hum": wk.humanized}), false),
         Err((m, loc)) => (json!({"end": idx, "ms": ms, "panic": m, "loc": loc}), true),
     }
 }
@@ -604,7 +630,7 @@ fn fam_class(rng: &mut Rng) -> Gen {
             break;
         }
         let t = rng.pick(&tys).clone();
-        let n = rng.range(2, 8);
+        let n = rng.range(3, 12);
         vars.push(usage(rng, &mut ctr, &mut s, &t, n));
     }
     cross_assign(rng, &mut s, &vars);
@@ -717,7 +743,7 @@ fn fam_alias(rng: &mut Rng) -> Gen {
     let mut vars = Vec::new();
     for _ in 0..rng.range(1, 4) {
         let t = rng.pick(&tys).clone();
-        let n = rng.range(2, 8);
+        let n = rng.range(3, 12);
         vars.push(usage(rng, &mut ctr, &mut s, &t, n));
     }
     cross_assign(rng, &mut s, &vars);
@@ -831,7 +857,7 @@ fn fam_generic(rng: &mut Rng) -> Gen {
             sub = "box-usage";
             for t in ["Box<integer>", "Box<Box<string>>", "Box<Box>", "Box", "Box<integer, string>", "Box<T>", "Box<Box<Box<Box<Box<integer>>>>>"] {
                 if rng.chance(1, 2) {
-                    let n = rng.range(2, 7);
+                    let n = rng.range(3, 10);
                     usage(rng, &mut ctr, &mut s, t, n);
                 }
             }
@@ -1007,7 +1033,7 @@ fn fam_flow(rng: &mut Rng) -> Gen {
     };
     match rng.below(4) {
         0 => {
-            let n = rng.range(2, 7);
+            let n = rng.range(3, 10);
             let body = snips(rng, n);
             single("snippets", 0, body)
         }
@@ -1063,7 +1089,8 @@ fn fam_flow(rng: &mut Rng) -> Gen {
             if rng.chance(1, 2) {
                 w!(s, "---@meta");
             }
-            w!(s, "---@namespace NS.Inner\n---@class Cls: NS.Inner.Cls\n---@field f Cls\n---@alias Al Cls | NS.Inner.Al\n");
+            let al = *rng.pick(&["Cls | NS.Inner.Al", "Cls | string", "Cls[]", "NS.Inner.Cls?", "fun(): NS.Inner.Al"]);
+            w!(s, "---@namespace NS.Inner\n---@class Cls: NS.Inner.Cls\n---@field f Cls\n---@alias Al {al}\n");
             let mut t = String::new();
             w!(t, "---@using NS.Inner\n---@type Cls\nlocal c\nlocal d = c.f.f.f\n---@type NS.Inner.Al\nlocal e\n---@cast e +Cls, -nil\nlocal f = e --[[@as Al]]\n---@namespace NS\n---@using NS\n---@type Inner.Cls\nlocal g = c");
             let n = rng.range(1, 4);
@@ -1318,6 +1345,7 @@ fn gen_case(seed: u64, i: usize) -> Case {
         cfg,
         family: format!("{fam}:{}", g.sub),
         opts: Opts { std, batch: rng.chance(1, 2), all_diag: rng.chance(1, 2), depth: g.depth, mutated },
+        minimal: false,
     }
 }
 
@@ -1370,7 +1398,7 @@ impl Outcome {
     fn same_class(&self, o: &Outcome) -> bool {
         match (self, o) {
             (Outcome::Panic { loc: a, .. }, Outcome::Panic { loc: b, .. }) => a == b,
-            (Outcome::Signal { sig: a, code: ca, cause: x }, Outcome::Signal { sig: b, code: cb, cause: y }) => a == b && ca == cb && x == y,
+            (Outcome::Signal { sig: a, code: ca, cause: x }, Outcome::Signal { sig: b, code: cb, cause: y }) => a == b && ca == cb && (x == y || x == "unknown" || y == "unknown"),
             (Outcome::Timeout, Outcome::Timeout) => true,
             _ => false,
         }
@@ -1396,7 +1424,8 @@ impl Ctx {
         } else {
             c = Command::new(&self.exe);
         }
-        c.args(args).stdin(Stdio::null()).stdout(Stdio::piped()).stderr(Stdio::piped());
+        // no backtrace capture in children: symbolising the first panic costs seconds of CPU on a loaded machine
+        c.args(args).env("RUST_BACKTRACE", "0").stdin(Stdio::null()).stdout(Stdio::piped()).stderr(Stdio::piped());
         c
     }
 }
@@ -1405,6 +1434,7 @@ struct Running {
     child: Child,
     rx: Receiver<String>,
     err: Arc<Mutex<Vec<u8>>>,
+    err_thread: Option<std::thread::JoinHandle<()>>,
 }
 
 fn start(ctx: &Ctx, args: &[String]) -> Running {
@@ -1426,7 +1456,7 @@ fn start(ctx: &Ctx, args: &[String]) -> Running {
     });
     let err = Arc::new(Mutex::new(Vec::new()));
     let e2 = err.clone();
-    std::thread::spawn(move || {
+    let err_thread = std::thread::spawn(move || {
         let mut buf = [0u8; 4096];
         while let Ok(n) = errp.read(&mut buf) {
             if n == 0 {
@@ -1441,7 +1471,7 @@ fn start(ctx: &Ctx, args: &[String]) -> Running {
             }
         }
     });
-    Running { child, rx, err }
+    Running { child, rx, err, err_thread: Some(err_thread) }
 }
 
 fn reap(child: &mut Child, ms: u64) -> Option<std::process::ExitStatus> {
@@ -1461,8 +1491,12 @@ fn reap(child: &mut Child, ms: u64) -> Option<std::process::ExitStatus> {
     }
 }
 
-fn death(st: Option<std::process::ExitStatus>, err: &Arc<Mutex<Vec<u8>>>) -> Outcome {
-    std::thread::sleep(Duration::from_millis(5));
+fn death(st: Option<std::process::ExitStatus>, r: &mut Running) -> Outcome {
+    // the child is gone, so its stderr reaches EOF: wait for the reader to have all of it
+    if let Some(h) = r.err_thread.take() {
+        let _ = h.join();
+    }
+    let err = &r.err;
     let tail = err.lock().map(|g| String::from_utf8_lossy(&g).to_string()).unwrap_or_default();
     let cause = if tail.contains("overflowed its stack") {
         "stack-overflow"
@@ -1491,16 +1525,23 @@ fn probe(ctx: &Ctx, mode: &str, case: &Case, budget_ms: u64) -> Outcome {
     let p = tmp_case_file(case);
     let args = vec![mode.to_string(), "--case-file".into(), p.display().to_string(), "--stack-kib".into(), ctx.stack_kib.to_string()];
     let mut r = start(ctx, &args);
-    let deadline = Instant::now() + Duration::from_millis(budget_ms);
+    let started = Instant::now();
+    let mut deadline = started + Duration::from_millis(budget_ms);
+    let pid = r.child.id().to_string();
     let mut last: Option<Value> = None;
     let out = loop {
         let now = Instant::now();
-        if now >= deadline {
-            let _ = r.child.kill();
-            let _ = r.child.wait();
-            break Outcome::Timeout;
+        let ev = if now >= deadline { Err(RecvTimeoutError::Timeout) } else { r.rx.recv_timeout(deadline - now) };
+        if let Err(RecvTimeoutError::Timeout) = ev {
+            // wall clock exceeded: only a real timeout when the CPU budget is used up too (or 15x wall)
+            if let Some(used) = cpu_ms(&pid) {
+                if used < budget_ms && started.elapsed() < Duration::from_millis(budget_ms * 15) {
+                    deadline = Instant::now() + Duration::from_millis((budget_ms - used).max(200));
+                    continue;
+                }
+            }
         }
-        match r.rx.recv_timeout(deadline - now) {
+        match ev {
             Ok(l) => {
                 if let Ok(v) = serde_json::from_str::<Value>(&l) {
                     if !v["end"].is_null() {
@@ -1514,14 +1555,14 @@ fn probe(ctx: &Ctx, mode: &str, case: &Case, budget_ms: u64) -> Outcome {
                 break Outcome::Timeout;
             }
             Err(RecvTimeoutError::Disconnected) => {
-                let st = reap(&mut r.child, 3000);
+                let st = reap(&mut r.child, 30_000);
                 break match (&last, st) {
                     (Some(v), _) if v["panic"].is_string() => Outcome::Panic {
                         msg: v["panic"].as_str().unwrap_or("").to_string(),
                         loc: short_loc(v["loc"].as_str().unwrap_or("?")),
                     },
                     (Some(_), Some(s)) if s.success() => Outcome::Ok,
-                    (_, st) => death(st, &r.err),
+                    (_, st) => death(st, &mut r),
                 };
             }
         }
@@ -1548,7 +1589,7 @@ struct Fail {
 }
 
 /// run cases [from, to) in child processes; every failure is attributed to the in-flight case
-fn run_range(ctx: &Ctx, from: usize, to: usize, stats: &Mutex<Stats>, fails: &Mutex<Vec<Fail>>, stop: &AtomicUsize, cap: usize) {
+fn run_range(ctx: &Ctx, from: usize, to: usize, ncorpus: usize, stats: &Mutex<Stats>, fails: &Mutex<Vec<Fail>>, stop: &AtomicUsize, cap: usize) {
     let mut next = from;
     while next < to && stop.load(Ordering::SeqCst) < cap {
         let args: Vec<String> = vec![
@@ -1556,30 +1597,44 @@ fn run_range(ctx: &Ctx, from: usize, to: usize, stats: &Mutex<Stats>, fails: &Mu
             "--stack-kib".into(), ctx.stack_kib.to_string(), "--corpus".into(), ctx.corpus_dir.clone(),
         ];
         let mut r = start(ctx, &args);
-        let batch_deadline = Instant::now() + Duration::from_millis((ctx.case_ms * (to - next) as u64 + 20_000).min(900_000));
-        let mut inflight: Option<(usize, Instant)> = None;
+        let batch_deadline = Instant::now() + Duration::from_millis((ctx.case_ms * 15 * (to - next) as u64 + 20_000).min(3_600_000));
+        let pid = r.child.id().to_string();
+        let mut inflight: Option<(usize, Instant, u64, Instant)> = None; // index, start, cpu at start, deadline
         let mut last_event = Instant::now();
         let idle_ms = ctx.case_ms.max(15_000);
         let push = |idx: usize, outcome: Outcome| {
             if let Ok(mut g) = fails.lock() {
                 g.push(Fail { idx, outcome });
             }
-            stop.fetch_add(1, Ordering::SeqCst);
+            // corpus witnesses are known failures: only generated cases count towards the cap
+            if idx >= ncorpus {
+                stop.fetch_add(1, Ordering::SeqCst);
+            }
         };
         loop {
             let dl = match inflight {
-                Some((_, t0)) => t0 + Duration::from_millis(ctx.case_ms),
-                None => last_event + Duration::from_millis(idle_ms),
-            }
-            .min(batch_deadline);
+                Some((_, _, _, d)) => d,
+                None => (last_event + Duration::from_millis(idle_ms)).min(batch_deadline),
+            };
             let now = Instant::now();
             let ev = if dl <= now { Err(RecvTimeoutError::Timeout) } else { r.rx.recv_timeout(dl - now) };
+            if let (Err(RecvTimeoutError::Timeout), Some((i, t0, c0, _))) = (&ev, inflight) {
+                // wall clock exceeded: a timeout only when the case also used its CPU budget (or 15x wall)
+                if let Some(c) = cpu_ms(&pid) {
+                    let used = c.saturating_sub(c0);
+                    if used < ctx.case_ms && t0.elapsed() < Duration::from_millis(ctx.case_ms * 15) {
+                        inflight = Some((i, t0, c0, Instant::now() + Duration::from_millis((ctx.case_ms - used).max(200))));
+                        continue;
+                    }
+                }
+            }
             match ev {
                 Ok(l) => {
                     last_event = Instant::now();
                     let Ok(v) = serde_json::from_str::<Value>(&l) else { continue };
                     if let Some(i) = v["begin"].as_u64() {
-                        inflight = Some((i as usize, Instant::now()));
+                        let now = Instant::now();
+                        inflight = Some((i as usize, now, cpu_ms(&pid).unwrap_or(0), now + Duration::from_millis(ctx.case_ms)));
                     } else if let Some(i) = v["end"].as_u64() {
                         let i = i as usize;
                         inflight = None;
@@ -1623,13 +1678,13 @@ fn run_range(ctx: &Ctx, from: usize, to: usize, stats: &Mutex<Stats>, fails: &Mu
                     break;
                 }
                 Err(RecvTimeoutError::Disconnected) => {
-                    let st = reap(&mut r.child, 5000);
+                    let st = reap(&mut r.child, 30_000);
                     match inflight {
-                        Some((i, _)) => {
+                        Some((i, ..)) => {
                             if let Ok(mut s) = stats.lock() {
                                 s.cases += 1;
                             }
-                            push(i, death(st, &r.err));
+                            push(i, death(st, &mut r));
                             next = i + 1;
                         }
                         None => {
@@ -1638,7 +1693,7 @@ fn run_range(ctx: &Ctx, from: usize, to: usize, stats: &Mutex<Stats>, fails: &Mu
                                 if let Ok(mut s) = stats.lock() {
                                     s.cases += 1;
                                 }
-                                push(next, death(st, &r.err));
+                                push(next, death(st, &mut r));
                                 next += 1;
                             }
                         }
@@ -1753,6 +1808,10 @@ fn shrink(ctx: &Ctx, case: &Case, want: &Outcome, max_runs: usize, max_ms: u64) 
     // pieces of the remaining lines (words, then characters) when what is left is still long
     for pass in 0..2 {
         let len = best.total_len();
+        // only where the failure class is pinned by a location; an overflow could drift to another recursion
+        if !matches!(want, Outcome::Panic { .. }) {
+            break;
+        }
         if len < 60 || len > 6000 || (pass == 1 && len > 400) {
             continue;
         }
@@ -1778,7 +1837,7 @@ fn shrink(ctx: &Ctx, case: &Case, want: &Outcome, max_runs: usize, max_ms: u64) 
 fn overflow_site(ctx: &Ctx, case: &Case) -> Option<(String, String)> {
     let p = tmp_case_file(case);
     let mut cmd = Command::new("timeout");
-    cmd.args(["-k", "5", "90", "gdb", "-batch", "-ex", "run", "-ex", "bt 48", "-ex", "bt -24", "--args"])
+    cmd.args(["-k", "5", "240", "gdb", "-nx", "-batch", "-iex", "set debuginfod enabled off", "-ex", "set startup-with-shell off", "-ex", "run", "-ex", "bt 48", "-ex", "bt -24", "--args"])
         .arg(&ctx.exe)
         .args(["one", "--case-file"])
         .arg(&p)
@@ -1838,7 +1897,7 @@ fn signature(case: &Case, o: &Outcome, site: Option<&str>) -> String {
         Outcome::Panic { loc, .. } => format!("panic@{loc}"),
         Outcome::Signal { sig, code, cause } => {
             let head = if *sig != 0 { format!("signal{sig}") } else { format!("exit{code}") };
-            let deep = if fam.starts_with("deep:") || fam.contains(":chain") { depth_bucket(case.opts.depth) } else { String::new() };
+            let deep = if fam.starts_with("deep:") { depth_bucket(case.opts.depth) } else { String::new() };
             match site {
                 Some(s) => format!("{head}:{cause}@{s}{deep}"),
                 None => format!("{head}:{cause}:{fam}{deep}"),
@@ -1856,6 +1915,29 @@ fn what(o: &Outcome, ctx: &Ctx) -> String {
         Outcome::Timeout => format!("no result within {} ms", ctx.case_ms),
         Outcome::Ok => "ok".into(),
     }
+}
+
+/// order-preserving parallel map over a slice with `jobs` worker threads
+fn par_map<T: Sync, R: Send>(jobs: usize, items: &[T], f: impl Fn(&T) -> Option<R> + Sync) -> Vec<Option<R>> {
+    let next = AtomicUsize::new(0);
+    let out: Mutex<Vec<Option<R>>> = Mutex::new((0..items.len()).map(|_| None).collect());
+    std::thread::scope(|sc| {
+        for _ in 0..jobs.min(items.len()).max(1) {
+            sc.spawn(|| {
+                loop {
+                    let k = next.fetch_add(1, Ordering::SeqCst);
+                    if k >= items.len() {
+                        break;
+                    }
+                    let r = f(&items[k]);
+                    if let Ok(mut g) = out.lock() {
+                        g[k] = r;
+                    }
+                }
+            });
+        }
+    });
+    out.into_inner().unwrap_or_default()
 }
 
 fn text_hash(s: &str) -> u64 {
@@ -1879,7 +1961,7 @@ fn search(args: &Args) {
     };
     let n = args.usize("n", 400);
     let batch = args.usize("batch", 25).max(1);
-    let jobs = args.usize("jobs", 1).max(1);
+    let jobs = args.usize("jobs", 4).max(1);
     let cap = args.usize("max-violations", 20);
     let corpus = load_corpus(&ctx.corpus_dir);
     let total = corpus.len() + n;
@@ -1929,7 +2011,7 @@ fn search(args: &Args) {
                     if k >= nchunks || stop.load(Ordering::SeqCst) >= cap {
                         break;
                     }
-                    run_range(&ctx, k * batch, ((k + 1) * batch).min(total), &stats, &fails, &stop, cap);
+                    run_range(&ctx, k * batch, ((k + 1) * batch).min(total), corpus.len(), &stats, &fails, &stop, cap);
                 }
             });
         }
@@ -1942,62 +2024,108 @@ fn search(args: &Args) {
     let mut sigs: BTreeMap<String, usize> = BTreeMap::new();
     let out = std::io::stdout();
     let have_gdb = !args.flag("no-gdb") && Command::new("gdb").arg("--version").stdout(Stdio::null()).stderr(Stdio::null()).status().map(|s| s.success()).unwrap_or(false);
-    let mut shrunk_sigs: HashSet<String> = HashSet::new();
-    for f in fails.iter().take(cap) {
+    let classify = !args.flag("no-classify");
+    // phase A (parallel): replay every failure alone and compute its provisional class
+    struct Pre {
+        idx: usize,
+        outcome: Outcome,
+        case: Case,
+        reproduced: bool,
+        site0: Option<(String, String)>,
+        pre: String,
+    }
+    let todo: Vec<&Fail> = fails.iter().filter(|f| f.idx < corpus.len()).chain(fails.iter().filter(|f| f.idx >= corpus.len()).take(cap)).collect();
+    let pres: Vec<Option<Pre>> = par_map(jobs, &todo, |f| {
         let case = case_at(&corpus, ctx.seed, f.idx);
-        // replay alone first: a timeout that does not reproduce alone was machine load, not the case
-        let again = probe(&ctx, "one", &case, ctx.case_ms + 3000);
-        let reproduced = again.same_class(&f.outcome);
-        if !reproduced && f.outcome == Outcome::Timeout {
-            unconfirmed += 1;
-            eprintln!("c12: timeout of case {} did not reproduce alone ({:?}); not reported", f.idx, again.kind());
-            continue;
+        let mut again = probe(&ctx, "one", &case, ctx.case_ms + 3000);
+        if !again.same_class(&f.outcome) {
+            again = probe(&ctx, "one", &case, ctx.case_ms + 3000);
         }
+        let mut outcome = f.outcome.clone();
+        let mut reproduced = again.same_class(&outcome);
+        if !reproduced {
+            eprintln!("c12: case {} failed in the batch with {:?} but alone gives {:?}", f.idx, f.outcome, again);
+            if again != Outcome::Ok {
+                // it fails alone too, in another way (e.g. a slow overflow): report what the replay shows
+                outcome = again.clone();
+                reproduced = true;
+            } else if f.outcome == Outcome::Timeout {
+                // a timeout that does not reproduce alone was machine load, not the case
+                return None;
+            }
+        }
+        let f = &Fail { idx: f.idx, outcome };
         let is_signal = matches!(f.outcome, Outcome::Signal { .. });
-        match f.outcome {
-            Outcome::Panic { .. } => panics += 1,
-            Outcome::Signal { .. } => signals += 1,
-            _ => timeouts += 1,
-        }
-        // one shrink per class: the provisional signature of the unshrunk case decides
         let site0 = if is_signal && have_gdb && reproduced { overflow_site(&ctx, &case) } else { None };
         let pre = signature(&case, &f.outcome, site0.as_ref().map(|s| s.0.as_str()));
-        let do_shrink = reproduced && shrunk_sigs.insert(pre.clone());
-        let max_runs = match f.outcome {
+        Some(Pre { idx: f.idx, outcome: f.outcome.clone(), case, reproduced, site0, pre })
+    });
+    unconfirmed += pres.iter().filter(|p| p.is_none()).count();
+    let pres: Vec<Pre> = pres.into_iter().flatten().collect();
+    // one shrink per class: the first case (lowest index) of every provisional signature
+    let mut shrunk_sigs: HashSet<String> = HashSet::new();
+    let plan: Vec<(&Pre, bool)> = pres.iter().map(|p| (p, p.reproduced && !p.case.minimal && shrunk_sigs.insert(p.pre.clone()))).collect();
+    // phase B (parallel): shrink, confirm, classify
+    let recs: Vec<(String, Value)> = par_map(jobs, &plan, |(p, do_shrink)| {
+        let do_shrink = *do_shrink;
+        let is_signal = matches!(p.outcome, Outcome::Signal { .. });
+        let max_runs = match p.outcome {
             Outcome::Panic { .. } => 400,
             Outcome::Signal { .. } => 150,
             _ => 60,
         };
-        let (shrunk, runs) = if do_shrink { shrink(&ctx, &case, &f.outcome, max_runs, 60_000) } else { (case.clone(), 0) };
-        let confirmed = if do_shrink { probe(&ctx, "one", &shrunk, ctx.case_ms + 3000).same_class(&f.outcome) } else { reproduced };
-        let use_case = if confirmed && do_shrink { &shrunk } else { &case };
-        let site = if is_signal && have_gdb && do_shrink && confirmed { overflow_site(&ctx, use_case) } else { site0.clone() };
-        let sig = signature(use_case, &f.outcome, site.as_ref().map(|s| s.0.as_str()));
-        *sigs.entry(sig.clone()).or_default() += 1;
+        let (shrunk, runs) = if do_shrink { shrink(&ctx, &p.case, &p.outcome, max_runs, 60_000) } else { (p.case.clone(), 0) };
+        let confirmed = if do_shrink {
+            let mut o = probe(&ctx, "one", &shrunk, ctx.case_ms + 3000);
+            if !o.same_class(&p.outcome) {
+                o = probe(&ctx, "one", &shrunk, ctx.case_ms + 3000);
+            }
+            if !o.same_class(&p.outcome) {
+                eprintln!("c12: shrunk case of {} gives {:?}, wanted {:?}", p.idx, o, p.outcome);
+            }
+            o.same_class(&p.outcome)
+        } else {
+            p.reproduced
+        };
+        let use_case = if confirmed && do_shrink { &shrunk } else { &p.case };
+        let site = if is_signal && have_gdb && do_shrink && confirmed { overflow_site(&ctx, use_case).or(p.site0.clone()) } else { p.site0.clone() };
+        let sig = signature(use_case, &p.outcome, site.as_ref().map(|s| s.0.as_str()));
         let mut rec = json!({
-            "signature": sig, "what": what(&f.outcome, &ctx), "kind": f.outcome.kind(), "index": f.idx,
-            "reproduced_alone": reproduced, "shrunk_confirmed": confirmed, "shrink_runs": runs, "shrink_skipped": !do_shrink,
-            "case": case.to_json(), "shrunk": use_case.to_json(),
+            "signature": sig, "what": what(&p.outcome, &ctx), "kind": p.outcome.kind(), "index": p.idx,
+            "reproduced_alone": p.reproduced, "shrunk_confirmed": confirmed, "shrink_runs": runs, "shrink_skipped": !do_shrink,
+            "case": p.case.to_json(), "shrunk": use_case.to_json(),
         });
         if let Some((fun, entry)) = &site {
             rec["recursion_in"] = json!(fun);
             rec["entry_point"] = json!(entry);
         }
-        if is_signal {
+        let first_of_class = do_shrink; // fresh discoveries only; corpus witnesses are just replayed and classified by site
+        if is_signal && classify && first_of_class {
             let po = probe(&ctx, "parse-only", use_case, ctx.case_ms + 3000);
             rec["parser_only_crashes"] = json!(matches!(po, Outcome::Signal { .. }));
-            // unbounded or merely deep recursion? replay with a 512 MiB stack
+            // unbounded or merely deep recursion? replay with a 32x stack
             let mut big = ctx.clone();
-            big.stack_kib = 512 * 1024;
-            big.mem_mib = 0;
-            rec["survives_512mib_stack"] = json!(probe(&big, "one", use_case, ctx.case_ms * 4 + 3000) == Outcome::Ok);
+            big.stack_kib = ctx.stack_kib * 32;
+            rec["survives_32x_stack"] = json!(probe(&big, "one", use_case, ctx.case_ms * 4 + 3000) == Outcome::Ok);
         }
-        if f.outcome == Outcome::Timeout {
-            // slow or (practically) unbounded? replay once with a budget of 10x, at most 60 s
+        if p.outcome == Outcome::Timeout && classify && first_of_class {
+            // slow or (practically) unbounded? replay once with a budget of 10x, at most 60 s of CPU
             let t1 = Instant::now();
             let o = probe(&ctx, "one", use_case, (ctx.case_ms * 10).min(60_000));
             rec["finishes_within_10x"] = if o == Outcome::Ok { json!(t1.elapsed().as_millis() as u64) } else { Value::Null };
         }
+        Some((p.outcome.kind().to_string(), rec))
+    })
+    .into_iter()
+    .flatten()
+    .collect();
+    for (kind, rec) in &recs {
+        match kind.as_str() {
+            "panic" => panics += 1,
+            "signal" => signals += 1,
+            _ => timeouts += 1,
+        }
+        *sigs.entry(rec["signature"].as_str().unwrap_or("").to_string()).or_default() += 1;
         let mut lk = out.lock();
         let _ = writeln!(lk, "{rec}");
         let _ = lk.flush();
@@ -2007,7 +2135,7 @@ fn search(args: &Args) {
         "cases": st.cases, "planned": total, "corpus": corpus.len(), "distinct_nontrivial": distinct.len(),
         "families": families, "top_families": top, "levels": levels, "options": optd,
         "panics": panics, "signals": signals, "timeouts": timeouts, "timeouts_unconfirmed": unconfirmed, "raw_failures": fails.len(),
-        "signatures": sigs, "stopped_early": fails.len() >= cap,
+        "signatures": sigs, "stopped_early": fails.iter().filter(|f| f.idx >= corpus.len()).count() >= cap,
         "max_case_ms": st.max_ms, "slowest_index": st.slowest.map(|s| s.1), "sum_case_ms": st.sum_ms, "run_ms": run_ms, "total_ms": t_all.elapsed().as_millis() as u64,
         "bytes": bytes, "max_case_bytes": max_bytes, "tokens_queried": st.tokens, "exprs_inferred": st.exprs, "semantic_infos": st.infos, "diagnostics_seen": st.diags,
         "stack_kib": ctx.stack_kib, "case_ms": ctx.case_ms, "jobs": jobs,
@@ -2037,7 +2165,7 @@ fn limits(args: &Args) {
         for mode in ["parse-only", "one"] {
             let mk = |d: usize| -> Case {
                 let mut rng = Rng::new(7);
-                Case { files: vec![("main.lua".into(), deep_text(k.name, d, &mut rng))], cfg: json!({}), family: format!("deep:{}", k.name), opts: Opts { std: false, batch: false, all_diag: true, depth: d, mutated: false } }
+                Case { files: vec![("main.lua".into(), deep_text(k.name, d, &mut rng))], cfg: json!({}), family: format!("deep:{}", k.name), opts: Opts { std: false, batch: false, all_diag: true, depth: d, mutated: false }, minimal: true }
             };
             // largest depth that survives, by doubling then bisection
             let mut lo = 1usize;
@@ -2097,6 +2225,26 @@ fn main() {
     match args.cmd.as_str() {
         "search" => search(&args),
         "limits" => limits(&args),
+        "shrink" => {
+            // development aid: a longer shrink of one failing case (`--runs`, `--ms`), prints the shrunk case
+            let ctx = Ctx {
+                exe: std::env::current_exe().expect("current_exe"),
+                seed: 0,
+                case_ms: args.u64("case-ms", 4000),
+                stack_kib,
+                mem_mib: args.usize("mem-mib", 4096),
+                corpus_dir: String::new(),
+            };
+            let case = read_case(&args);
+            let want = probe(&ctx, "one", &case, ctx.case_ms + 3000);
+            eprintln!("c12 shrink: outcome to preserve: {want:?}");
+            if want == Outcome::Ok {
+                std::process::exit(1);
+            }
+            let (c, runs) = shrink(&ctx, &case, &want, args.usize("runs", 400), args.u64("ms", 600_000));
+            eprintln!("c12 shrink: {runs} runs, {} -> {} bytes", case.total_len(), c.total_len());
+            println!("{}", c.to_json());
+        }
         "batch" => {
             install_hook();
             let seed = args.u64("seed", 1);
